@@ -414,6 +414,66 @@ fn check_half_life(c: &HCase, obs: &mut Obs) -> CheckResult {
     Ok(())
 }
 
+/// Very long series with giant tie groups (a +-1 direction series of 70 000..140 000 points): the
+/// summed ranks of one tie group exceed 2^31, average ranks must still be exact and Spearman must
+/// equal the Pearson correlation of those ranks. The case stores only (n, seed-like parameters).
+#[derive(Clone, Debug, Serialize, Deserialize)]
+struct LongTieCase {
+    n: usize,
+    a: u32,
+    b: u32,
+}
+
+fn long_tie_case(_t: Tier) -> impl Strategy<Value = LongTieCase> {
+    (70_000usize..=140_000, 1u32..1000, 1u32..1000).prop_map(|(n, a, b)| LongTieCase { n, a, b })
+}
+
+fn check_long_ties(c: &LongTieCase, obs: &mut Obs) -> CheckResult {
+    use tevec::prelude::MapValidVec;
+    // direction series: +-1 from a multiplicative hash; second series: three-valued
+    let x: Vec<f64> = (0..c.n).map(|i| if ((i as u64).wrapping_mul(c.a as u64 * 2 + 1).wrapping_add(c.b as u64) >> 3) % 5 < 2 { -1.0 } else { 1.0 }).collect();
+    let y: Vec<f64> = (0..c.n).map(|i| ((i as u64).wrapping_mul(c.b as u64 * 2 + 1) % 3) as f64 + if i % 7 == 0 { x[i] } else { 0.0 }).collect();
+    let ranks: Vec<f64> = x.vrank(false, false);
+    let n_lo = x.iter().filter(|v| **v < 0.0).count() as f64;
+    let n_hi = c.n as f64 - n_lo;
+    let (r_lo, r_hi) = ((n_lo + 1.0) / 2.0, n_lo + (n_hi + 1.0) / 2.0);
+    for (i, r) in ranks.iter().enumerate() {
+        let want = if x[i] < 0.0 { r_lo } else { r_hi };
+        if *r != want {
+            return fail("long_ties:vrank", format!("vrank of a +-1 series of {} points ({} low): element {} has rank {}, the average rank of its tie group is {}", c.n, n_lo, i, r, want));
+        }
+    }
+    let got = x.vcorr(&y, Some(2), CorrMethod::Spearman);
+    // Pearson of exact average ranks, computed with centred sums
+    let ry: Vec<f64> = {
+        let mut cnt = [0f64; 8];
+        for v in &y {
+            cnt[(*v + 1.0) as usize] += 1.0;
+        }
+        let mut below = [0f64; 8];
+        for k in 1..8 {
+            below[k] = below[k - 1] + cnt[k - 1];
+        }
+        y.iter().map(|v| below[(*v + 1.0) as usize] + (cnt[(*v + 1.0) as usize] + 1.0) / 2.0).collect()
+    };
+    let rx: Vec<f64> = x.iter().map(|v| if *v < 0.0 { r_lo } else { r_hi }).collect();
+    let n = c.n as f64;
+    let (mx, my) = (rx.iter().sum::<f64>() / n, ry.iter().sum::<f64>() / n);
+    let (mut sxy, mut sxx, mut syy) = (0.0, 0.0, 0.0);
+    for i in 0..c.n {
+        let (dx, dy) = (rx[i] - mx, ry[i] - my);
+        sxy += dx * dy;
+        sxx += dx * dx;
+        syy += dy * dy;
+    }
+    let want = sxy / (sxx * syy).sqrt();
+    if !((got - want).abs() <= 1e-9 || (got.is_nan() && want.is_nan())) {
+        return fail("long_ties:spearman", format!("Spearman of two heavily tied series of {} points = {}, Pearson of the average ranks = {}", c.n, got, want));
+    }
+    obs.set_nontrivial(true);
+    Ok(())
+}
+
 fn main() {
     let mut p = Property::new(
         "C20",
@@ -425,6 +485,7 @@ fn main() {
     .assume("winsorize bounds are compared inside a rounding band around each bound (values within the band may legitimately fall on either side)");
     p.add(sub("winsorize", 30000, 1000000, w_case, check_winsorize));
     p.add(sub("spearman", 15000, 400000, s_case, check_spearman));
+    p.add(sub("long_tie_groups", 1, 12, long_tie_case, check_long_ties));
     p.add(sub("half_life", 15000, 400000, h_case, check_half_life));
     main_for(p);
 }
